@@ -12,7 +12,8 @@ RULE = ("smooth (linear, sin/quadratic, exp, Rosenbrock-chain) problems, +/- bou
         "points of the history), fit r ~ c + J(x - xbar) by SVD least squares on the column-scaled design matrix and compare with "
         "soln.jacobian in user coordinates: |J - J_soln|_max / |J|_max <= 1e3 eps cond(W)(1+|x|/spread)(|R|/(|J| spread)); for linear "
         "residuals also J_soln == A. Cases with tolerance > 1e-2 are skipped as ill-conditioned and counted. Non-trivial = checked "
-        "case with restarts, scaling, npt > n+1, averaging, completed growing or budget exit; distinct by configuration hash")
+        "case with restarts, scaling, npt > n+1, averaging, completed growing or budget exit; distinct by configuration hash"
+        ' Second session: scaling switch and float parameters given as numpy scalars on 40 % of the scaled runs.')
 ASSUMPTIONS = ["a Jacobian with jacmin_eval_nums = None is documented as 'not formed using problem information, disregard' and is not checked",
                "a point set is 'fully initialised' when jacmin_eval_nums contains no 0 (unfilled slot)"]
 N = {"quick": 4000, "thorough": 40000}
